@@ -296,7 +296,7 @@ def cases(tier, seed=0):
   from checks import fpgrid
   cs.append(Case("fp grid DL_POLY", fpgrid.grid_case, target="DL_POLY", nr=44))
   if tier == "quick":
-    nrs, maxp, models, mnr = [8, 12], 2, ["buck_morse", "multirange", "sum_modifier"], [8]
+    nrs, maxp, models, mnr = [8, 12], 2, ["buck_morse", "multirange"], [8]
   else:
     nrs, maxp = [8, 12, 16, 20, 24, 28, 32], 3
     models = [m for m in common.PAIR_MODELS if m not in ("spline", "buck4")]
